@@ -29,7 +29,7 @@ from ..cfg import explore, canon_fact
 from ..rules import node_calls, event_facts, check_settles, settle_sites
 from ..mutate import mutate, remove_stmts, replace_expr, replace_stmt, parse_stmt, parse_expr
 from ..model import AnalysisError
-from ..x_guardflow import ClassEffects, guard_facts, has, settles_guarded, missing_effect
+from ..x_guardflow import ClassEffects, guard_facts, has, settles_guarded, missing_effect, edge_facts, as_aug
 from ..x_iostream import read_end_mode, take_and_clear, FAMILY, IO
 
 TECHNIQUE = "field-table vs. drain agreement, SETTLE lint, take-and-clear, guard dominance and path-sensitive typestate on close()"
@@ -93,7 +93,7 @@ def _drain_forms(fi, path: str, lists: Set[str], settled_names: Set[str]):
                 return True
             if var is not None and ((isinstance(c.func, ast.Attribute) and c.func.attr in ("set_exception", "set_result") and q.dotted(c.func.value) == var) or (q.call_attr(c) in ("future_set_exception_unless_cancelled", "future_set_result_unless_cancelled") and c.args and q.dotted(c.args[0]) == var)):
                 return True
-        if isinstance(n.ast, ast.AugAssign) and q.dotted(n.ast.target) in lists and (var is None or any(isinstance(x, ast.Name) and x.id == var for x in ast.walk(n.ast.value))):
+        if isinstance(as_aug(n.ast), ast.AugAssign) and q.dotted(as_aug(n.ast).target) in lists and (var is None or any(isinstance(x, ast.Name) and x.id == var for x in ast.walk(as_aug(n.ast).value))):
             return True
         return False
 
@@ -209,7 +209,7 @@ def signal_closed(ck):
                 if isinstance(st, ast.Expr) and q.is_call(st.value, L + ".append", L + ".extend") and any(q.dotted(x) == path for x in ast.walk(st.value)):
                     collected = True
                     coll_nodes.append(n)
-                if isinstance(st, ast.AugAssign) and q.dotted(st.target) == L and any(q.dotted(x) == path for x in ast.walk(st.value)):
+                if isinstance(as_aug(st), ast.AugAssign) and q.dotted(as_aug(st).target) == L and any(q.dotted(x) == path for x in ast.walk(as_aug(st).value)):
                     collected = True
                     coll_nodes.append(n)
         ok = collected or path in directly
@@ -335,8 +335,7 @@ def close_path(ck):
 
     def edge2(n, kind, val):
         uc, rf, fin, srch = val
-        if n.kind == "test" and kind in ("true", "false"):
-            t, pol = canon_fact(n.ast, kind == "true")
+        for t, pol in edge_facts(n, kind, gf):
             if t == "self._read_until_close":
                 uc = pol
             elif t == "self._read_future is None":
@@ -412,8 +411,7 @@ def close_path(ck):
 
         def edge3(n, k, val, hep=hep):
             kind, rec = val
-            if n.kind == "test" and k in ("true", "false"):
-                t, pol = canon_fact(n.ast, k == "true")
+            for t, pol in edge_facts(n, k, hgf):
                 if t == hep and kind == "?":
                     kind = "given" if pol else "none"
                 elif t.startswith("isinstance(%s," % hep) and pol and kind == "given":
@@ -422,6 +420,7 @@ def close_path(ck):
                     kind = "sys-some" if pol else "sys-none"
             return (kind, rec)
 
+        hgf = guard_facts(hf, eff)
         seen3 = explore(hcfg, (init_kind, False), tr3, lambda t: False, edge_transfer=edge3, follow_exc=False)
         for nid in at_ids:
             for _f, (kind, rec) in seen3.get(nid, ()):
